@@ -5,7 +5,7 @@ Local Open Scope Z_scope.
 
 Lemma fit_label_dec c l : {fit_label c l} + {~ fit_label c l}.
 Proof.
-  destruct l; simpl; try (left; exact I).
+  destruct l; simpl; try (left; exact I); try apply Z_le_dec.
   destruct (kind c); [left; intros; discriminate|].
   destruct (Z_le_dec sz (cap c)); [left; auto|right; intros H; apply n; apply H; reflexivity].
 Qed.
@@ -162,9 +162,9 @@ Proof.
 Qed.
 
 Lemma fate_step c p s l s' z :
-  blocking c = true -> fate p s -> step c s l = Some (s', z) -> fate p s'.
+  faulty s = [] -> blocking c = true -> fate p s -> step c s l = Some (s', z) -> fate p s'.
 Proof.
-  intros B F H.
+  intros NF2 B F H.
   destruct (step_frame _ _ _ _ _ H) as (FR & AC & CA & _).
   assert (OTHER : thread_of l <> Some p -> fate p s').
   { intros N. unfold fate in *. rewrite (FR _ N).
@@ -180,12 +180,15 @@ Proof.
 Qed.
 
 Lemma fate_run c p ls : forall s s',
-  blocking c = true -> fate p s -> run c s ls = Some s' -> fate p s'.
+  faulty s = [] -> internal_run ls -> blocking c = true -> fate p s -> run c s ls = Some s' -> fate p s'.
 Proof.
-  induction ls as [|l ls IH]; intros s s' B F R; simpl in R.
+  induction ls as [|l ls IH]; intros s s' NF2 IR B F R; simpl in R.
   - inversion R; subst. exact F.
-  - destruct (step c s l) as [[s1 z]|] eqn:E; [|discriminate].
-    eapply IH; [exact B| |exact R]. eapply fate_step; eauto.
+  - inversion IR as [|? ? Hi IR']; subst.
+    destruct (step c s l) as [[s1 z]|] eqn:E; [|discriminate].
+    eapply IH; [|exact IR'|exact B| |exact R].
+    + eapply nofault2_step; [exact NF2| |exact E]. destruct l; simpl; auto; discriminate.
+    + eapply fate_step; eauto.
 Qed.
 
 Lemma cancelled_internal_run c ls : forall s s',
@@ -245,7 +248,7 @@ Proof.
     split; [exact AR|]. split; [exact Q1|]. split; [exact Q2|]. split; [auto|]. split; [reflexivity|].
     intros p sz B Hp NC.
     assert (F : fate p s) by (unfold fate; destruct Hp as [-> | ->]; exact I).
-    pose proof (fate_run _ _ _ _ _ B F R) as F'.
+    pose proof (fate_run _ _ _ _ _ (reach_nofault2 _ c s (fun l H => H) RE) IR B F R) as F'.
     rewrite <- (cancelled_internal_run _ _ _ _ IR R) in NC.
     assert (A : In p (acc s')).
     { unfold fate in F'. destruct (pget p (prods s')) as [v|] eqn:E; [|contradiction].
@@ -295,8 +298,10 @@ Proof.
       destruct N as [N|[N|N]]; try lia; try congruence.
       destruct (cnt_pos_ex is_lefttok (prods s) G6 N) as (q & w & Hq & Hw).
       destruct w; try discriminate.
-      exists (LRelockTok q). split; [reflexivity|]. unfold step, lock_free. rewrite L, Hq. discriminate.
-    - exists (LRelockTok p). split; [reflexivity|]. unfold step, lock_free. rewrite L, Hp. discriminate.
+      exists (LRelockTok q). split; [reflexivity|]. unfold step, lock_free. rewrite L, Hq.
+      destruct (find_id q (faulty s)); [destruct (size s + sz0 >? cap c)|]; discriminate.
+    - exists (LRelockTok p). split; [reflexivity|]. unfold step, lock_free. rewrite L, Hp.
+      destruct (find_id p (faulty s)); [destruct (size s + sz >? cap c)|]; discriminate.
     - exists (LRelockCtx p). split; [reflexivity|]. unfold step, lock_free. rewrite L, Hp.
       destruct (waiting s =? 0), (tok s); discriminate.
     - destruct (A _ Hp) as [I|[I|[I|[e I]]]].
